@@ -684,6 +684,19 @@ func init() {
 						if b, ok := m.(*ast.BranchStmt); ok {
 							r.Fail(fl.Name()+":partial-output", b.Pos(), nil, "the drain loop can skip results (%s)", b.Tok)
 						}
+						// a return inside the drain loop abandons results that Drain already removed from the
+						// buffer (and everything queued behind them)
+						if ret, ok := m.(*ast.ReturnStmt); ok {
+							r.Fail(fl.Name()+":partial-output", ret.Pos(), nil, "the drain loop can be left by a return: results already taken out of the reorder buffer are dropped and later ones are never emitted")
+						}
+						// the send must not compete with another ready case
+						if sel, ok := m.(*ast.SelectStmt); ok && len(sel.Body.List) > 1 {
+							for _, cl := range sel.Body.List {
+								if send, ok := cl.(*ast.CommClause).Comm.(*ast.SendStmt); ok && prog.SelField(fi, send.Chan) == out {
+									r.Fail(fl.Name()+":partial-output", send.Pos(), nil, "the send of a drained result to Output is one case of a select: when another case is ready the result is dropped")
+								}
+							}
+						}
 						return true
 					})
 				}
